@@ -75,6 +75,22 @@ def correspondence(ctx):
         s.meta = {"wide": w}
         scns.append(s)
         chains[id(s)] = blocks
+    # ranges whose unspent set is EMPTY (only address-less outputs; everything spent again; a range of one OP_RETURN-only block): the
+    # dump is the header line alone
+    a1 = b"\x76\xa9\x14" + GC.rb(r, 20) + b"\x88\xac"
+    for k, coin in enumerate(["bitcoin", "litecoin", "namecoin"]):
+        cb0 = GH.coinbase(0, [(50 * 10**8, a1)] if k == 1 else [(0, b"\x6a\x01\x41")])
+        t1 = K.Tx([(cb0.txid(), 0, b"\x01\x01", 0xffffffff)], [(7, b"\x6a\x02hi"), (0, b"\x51")])
+        b0 = K.Block([cb0, t1], time=1231006505)
+        b1 = K.Block([GH.coinbase(1, [(0, b"\x6a")])], time=1231007105)
+        blocks = GH.link([b0, b1])
+        s = K.Scenario(coin=coin, callback="unspentcsvdump")
+        GC.simple_layout(s, blocks)
+        if k == 2:
+            s.start = 1
+        s.meta = {"empty-result": k}
+        scns.append(s)
+        chains[id(s)] = blocks
     hist, build = GH.tiny_histories("bitcoin", 3 if ctx.thorough() else 2)
     for k, spec in enumerate(hist):
         blocks = build(spec)
